@@ -57,8 +57,22 @@ def fam_src(nodes, tag: str) -> str:
     return "".join(out)
 
 
+def _super_host(n):
+    """The node list of a component body in which {{ block.super }} can be written: the implicit body, or the
+    content of the first plain {% fill %} of a body with explicit fills."""
+    if n.get("t") != "comp":
+        return None
+    if n.get("body") == "impl":
+        return n["a"]
+    if n.get("body") == "fills":
+        for f in n["a"]:
+            if f["t"] == "fill":
+                return f["a"]
+    return None
+
+
 def split_template(rnd: random.Random, nodes: List[Dict[str, Any]], base_name: str, inc_name: str, tpls: List[Dict[str, Any]],
-                   prefix: str = "b"):
+                   prefix: str = "b", allow_super_inside: bool = False):
     """Split a template's top-level node list into base + child (+ include): returns (ext, child nodes).
     Top-level chunks become blocks of a base template; the child overrides some of them (optionally
     with {{ block.super }}), so that Flat(child) has exactly the original nodes."""
@@ -72,7 +86,7 @@ def split_template(rnd: random.Random, nodes: List[Dict[str, Any]], base_name: s
     base, child = [], []
     for j, n in enumerate(nodes):
         bn = f"{prefix}{j}"
-        mode = rnd.choice(["base", "override", "super-after", "super-before", "plain"])
+        mode = rnd.choice(["base", "override", "super-after", "super-before", "plain", "super-inside"])
         if mode == "plain":
             base.append(n)
         elif mode == "base":
@@ -83,6 +97,14 @@ def split_template(rnd: random.Random, nodes: List[Dict[str, Any]], base_name: s
         elif mode == "super-after":
             base.append({"t": "block", "name": bn, "a": [n]})
             child.append({"t": "block", "name": bn, "a": [{"t": "super"}]})
+        elif mode == "super-inside" and allow_super_inside and _super_host(n) is not None:
+            # {{ block.super }} used INSIDE the body of a component tag (a fill or the implicit body) of the override
+            base.append({"t": "block", "name": bn, "a": [{"t": "text", "id": "BASESUPER"}]})
+            m = copy.deepcopy(n)
+            _super_host(m).insert(0, {"t": "super"})
+            child.append({"t": "block", "name": bn, "a": [m]})
+        elif mode == "super-inside":
+            base.append(n)
         else:
             base.append({"t": "block", "name": bn, "a": []})
             child.append({"t": "block", "name": bn, "a": [{"t": "super"}, n]})
@@ -140,15 +162,21 @@ def family_program(rnd: random.Random, p: Dict[str, Any]) -> Dict[str, Any]:
     tpls: List[Dict[str, Any]] = []
     # block names are unique per family unless `collide` (same names in the page's and the components' families)
     collide = q.get("block_names_collide", False)
-    ext, nodes = split_template(rnd, q["page"], f"vf_{q['id']}_page_base.html", f"vf_{q['id']}_page_inc.html", tpls,
-                                "b" if collide else "pg") if rnd.random() < 0.6 else ("", q["page"])
-    q["pext"], q["page"] = ext, nodes
+    page_split = rnd.random() < 0.6
     for i, c in enumerate(q["comps"], start=1):
         if rnd.random() < 0.6:
             c["ext"], c["tpl"] = split_template(rnd, c["tpl"], f"vf_{q['id']}_c{i}_base.html", f"vf_{q['id']}_c{i}_inc.html", tpls,
                                                 "b" if collide else f"c{i}x")
         else:
             c["ext"] = ""
+    # {{ block.super }} inside the body of a component tag of an override: only where the whole component tree is
+    # rendered while the page's block is still being rendered (a page-level component = render root) and where the
+    # fill's `block` variable is the page's (isolated mode, or no component template has blocks of its own);
+    # elsewhere it is a recorded limitation (deferred rendering / django-mode shadowing of `block`), see DESIGN 9.5
+    allow = q["mode"] == "isolated" or not any(c["ext"] for c in q["comps"])
+    ext, nodes = split_template(rnd, q["page"], f"vf_{q['id']}_page_base.html", f"vf_{q['id']}_page_inc.html", tpls,
+                                "b" if collide else "pg", allow_super_inside=allow) if page_split else ("", q["page"])
+    q["pext"], q["page"] = ext, nodes
     q["tpls"] = tpls
     return q
 
